@@ -20,11 +20,15 @@ FUNCTIONS = [
     "jsonargparse._core.ArgumentParser.link_arguments/parse_object/parse_args/parse_env/_parse_common/dump/save",
 ]
 
-SHAPES = ["plain", "compute2", "group_to_dict", "init_arg", "list_items"]
+SHAPES = ["plain", "compute2", "group_to_dict", "init_arg", "list_items", "nested_target", "two_links", "compute_dict_param"]
 
 
 def _fn2(a, c):
     return a + 2 * c
+
+
+def _sum_dict(g: dict):
+    return g["x"] + 10 * g["y"]
 
 
 def _build(shape):
@@ -48,6 +52,20 @@ def _build(shape):
         p.add_argument("--g.y", type=int, default=4)
         p.add_argument("--dt", type=Dict[str, int])
         p.link_arguments("g", "dt")
+    elif shape == "nested_target":
+        p.add_argument("--g.t", type=int)
+        p.add_argument("--g.u", type=int, default=8)
+        p.link_arguments("a", "g.t")
+    elif shape == "two_links":
+        p.add_argument("--b", type=int)
+        p.add_argument("--d", type=int)
+        p.link_arguments("a", "b")
+        p.link_arguments(("a", "c"), "d", compute_fn=_fn2)
+    elif shape == "compute_dict_param":
+        p.add_argument("--g.x", type=int, default=3)
+        p.add_argument("--g.y", type=int, default=4)
+        p.add_argument("--d", type=int)
+        p.link_arguments("g", "d", compute_fn=_sum_dict)
     elif shape == "init_arg":
         p.add_argument("--m", type=Base, default=None)
         p.link_arguments("a", "m.init_args.w")
@@ -64,6 +82,12 @@ def _expected(shape, cfg):
         return [("d", _fn2(cfg["a"], cfg["c"]))]
     if shape == "group_to_dict":
         return [("dt", {"x": cfg["g.x"], "y": cfg["g.y"]})]
+    if shape == "nested_target":
+        return [("g.t", cfg["a"])]
+    if shape == "two_links":
+        return [("b", cfg["a"]), ("d", _fn2(cfg["a"], cfg["c"]))]
+    if shape == "compute_dict_param":
+        return [("d", cfg["g.x"] + 10 * cfg["g.y"])]
     if shape == "init_arg":
         return [("m.init_args.w", cfg["a"])] if cfg.get("m") is not None else []
     return [(("lm", i, "init_args.w"), cfg["a"]) for i in range(len(cfg["lm"])) if not cfg["lm"][i]["class_path"].endswith("NoW")]
@@ -83,6 +107,12 @@ def _has_target(shape, d):
         return "d" in d
     if shape == "group_to_dict":
         return "dt" in d
+    if shape == "nested_target":
+        return "t" in (d.get("g") or {})
+    if shape == "two_links":
+        return "b" in d or "d" in d
+    if shape == "compute_dict_param":
+        return "d" in d
     if shape == "init_arg":
         return isinstance(d.get("m"), dict) and "w" in (d["m"].get("init_args") or {})
     return any("w" in (it.get("init_args") or {}) for it in d.get("lm", []))
@@ -102,7 +132,7 @@ def links(shape, shard=None, nshards=1):
             obj["a"] = S.int("a")
         if S.flag("c.given"):
             obj["c"] = S.int("c")
-        if shape == "group_to_dict":
+        if shape in ("group_to_dict", "compute_dict_param"):
             if S.flag("g.x.given"):
                 obj["g"] = {"x": S.int("g.x")}
         given_target = S.flag("target.given")
@@ -124,8 +154,10 @@ def links(shape, shard=None, nshards=1):
                     spec["init_args"] = dict(w=tval)
                 items.append(spec)
             obj["lm"] = items
+        elif given_target and shape == "nested_target":
+            obj.setdefault("g", {})["t"] = tval
         elif given_target:
-            key = {"plain": "b", "compute2": "d", "group_to_dict": "dt"}[shape]
+            key = {"plain": "b", "compute2": "d", "group_to_dict": "dt", "two_links": "d", "compute_dict_param": "d"}[shape]
             obj[key] = tval if shape != "group_to_dict" else {"x": tval}
         if shard is not None and S.shard(nshards) != shard:
             return None
@@ -296,6 +328,7 @@ def main(rep, tier):
             jobs.append(dict(module="c15", func="links", kwargs=kw, timeout=300 if tier == "quick" else 900))
     results = run_jobs(jobs)
     fails = absorb(rep, results, require_tags=("accepted", "targets=1", "targets=2"))
+    rep.bounds["link_shapes"] = SHAPES
     # static part
     bad = static_checks_native()
     rep.evaluations += 1
